@@ -178,17 +178,32 @@ theorem structFits_final {e : Encoder} {type version source : Nat} {p : Bytes}
   structFits_crc _ _ (pyMessageCrc _ p).isLt ((structFits_enc e type version source p).2 h)
 
 theorem okOutputs_cons_ok {e e' : Encoder} {c : EncCall} {cs : List EncCall} {out : Bytes}
-    (h : encodeMessage e c.type c.version c.source c.payload = (.ok out, e')) :
+    (h : encodeCall e c = (.ok out, e')) :
     okOutputs (encodeAll e (c :: cs)) = out :: okOutputs (encodeAll e' cs) := by
-  show okOutputs ((encodeMessage e c.type c.version c.source c.payload).1 ::
-    encodeAll (encodeMessage e c.type c.version c.source c.payload).2 cs) = _
+  show okOutputs ((encodeCall e c).1 :: encodeAll (encodeCall e c).2 cs) = _
   rw [h]; rfl
 
 theorem okOutputs_cons_err {e e' : Encoder} {c : EncCall} {cs : List EncCall} {x : PyErr}
-    (h : encodeMessage e c.type c.version c.source c.payload = (.error x, e')) :
+    (h : encodeCall e c = (.error x, e')) :
     okOutputs (encodeAll e (c :: cs)) = okOutputs (encodeAll e' cs) := by
-  show okOutputs ((encodeMessage e c.type c.version c.source c.payload).1 ::
-    encodeAll (encodeMessage e c.type c.version c.source c.payload).2 cs) = _
+  show okOutputs ((encodeCall e c).1 :: encodeAll (encodeCall e c).2 cs) = _
   rw [h]; rfl
+
+/-- What one call as written by a caller does: either it is refused and the encoder is unchanged, or its
+arguments fit, the source identifier is the (non-negative) one of this call and the bytes are `encOutput`. -/
+theorem encodeCall_cases (e : Encoder) (c : EncCall) :
+    (∃ x, encodeCall e c = (.error x, e)) ∨
+    (∃ s p, c.sourceArg = Int.ofNat s ∧ c.payload = some p ∧ EncFits e c.type c.version s p ∧
+      encodeCall e c = (.ok (encOutput e c.type c.version s p), ⟨(e.sequenceNumber + 1) % 4294967296⟩)) := by
+  unfold encodeCall
+  cases hp : c.payload with
+  | none => exact .inl ⟨_, rfl⟩
+  | some p =>
+    cases hs : c.sourceArg with
+    | negSucc n => exact .inl ⟨_, rfl⟩
+    | ofNat s =>
+      by_cases hfit : EncFits e c.type c.version s p
+      · exact .inr ⟨s, p, rfl, rfl, hfit, encodeMessage_ok hfit⟩
+      · exact .inl ⟨_, encodeMessage_err hfit⟩
 
 end FeVerif
